@@ -27,7 +27,9 @@
     s.pub g       ghost: wakers can find g (it sits in some primitive's waiter list)
     s.tracked g   g is a script fiber or the main fiber (its state word is logged);
                   untracked = per-thread maintenance fibers, `s.maintOf g` = their thread
-    mentions g e  event e names fiber g
+    mentions g e  event e names fiber g — including `touch _ g`: any access to a field of g's
+                  control block other than `state` (result, join_info, detach_state,
+                  mpsc_fifo_node, scratch)
 -/
 import LibfiberVerif.Proof.Rt
 
@@ -298,8 +300,8 @@ theorem destroy_after_switch {es : List Ev} {s s' : St} (h : sys.run es = some s
     rw [hcur, hsv] at this; simp at this
 
 /-- a destroyed fiber stays destroyed and NO later event names it: it is not created again,
-    not pushed, popped or stolen, its state word is not read or written, it is not switched
-    to and not destroyed a second time -/
+    not pushed, popped or stolen, its state word is not read or written, no other field of its
+    control block is accessed (`touch`), it is not switched to and not destroyed a second time -/
 theorem dead_untouched {es fs : List Ev} {s : St} {g : Nat} (h : sys.run es = some s)
     (hd : s.ctx g = .dead) {s' : St} (hf : sys.runFrom s fs = some s') :
     s'.ctx g = .dead ∧ ∀ e ∈ fs, mentions g e = false := by
@@ -321,7 +323,8 @@ theorem dead_untouched {es fs : List Ev} {s : St} {g : Nat} (h : sys.run es = so
       · exact hm
       · exact hms e' he'
 
-/-- the same over one event list: nothing after an accepted `destroy k g` names g -/
+/-- the same over one event list: nothing after an accepted `destroy k g` names g — in
+    particular no `touch _ g`: the control block is not touched afterwards -/
 theorem destroyed_never_touched {es fs : List Ev} {k g : Nat} {s : St}
     (h : sys.run (es ++ .destroy k g :: fs) = some s) :
     s.ctx g = .dead ∧ ∀ e ∈ fs, mentions g e = false := by
@@ -346,6 +349,14 @@ theorem destroyed_never_touched {es fs : List Ev} {k g : Nat} {s : St}
       have hr2 : sys.run (es ++ [Ev.destroy k g]) = some s2 := by
         simp [Sys.run, Sys.runFrom_append, h1, h2]
       exact dead_untouched hr2 hdead h
+
+/-- **touch_only_live**: every accepted access to a field of g's control block (result,
+    join_info, detach_state, mpsc_fifo_node, scratch) finds g not yet destroyed -/
+theorem touch_only_live {es : List Ev} {s s' : St} (h : sys.run es = some s) {k g : Nat}
+    (hs : sys.step s (.touch k g) = some s') : s.ctx g ≠ .dead := by
+  intro hd
+  have := (dead_step (inv_of_run h) hd hs).2
+  simp [mentions] at this
 
 /-- a destroyed fiber is nowhere: not executing, not queued, not held, not findable -/
 theorem dead_is_nowhere {es : List Ev} {s : St} (h : sys.run es = some s) {g : Nat}
@@ -431,6 +442,15 @@ example : sys.run (doneTrace ++ [.destroy 0 16]) = none ∧
     sys.run (doneTrace ++ [.rqpush 0 1 16 .wake]) = none ∧
     sys.run (doneTrace ++ [.rState 1 16 4 .other]) = none := by
   refine ⟨by decide, by decide, by decide⟩
+
+/-- the control block: a touch of fiber 16 (say a joiner reading `result`) is accepted right up
+    to the destroy — also after 16 marked itself DONE and was switched away from — and rejected
+    by ANY kernel thread after it -/
+example : sys.run (doneTrace.take 18 ++ [.touch 1 16]) ≠ none ∧
+    sys.run (doneTrace ++ [.touch 1 16]) = none ∧
+    sys.run (doneTrace ++ [.touch 0 16]) = none ∧
+    sys.run (doneTrace ++ [.touch 1 0]) ≠ none := by
+  refine ⟨by decide, by decide, by decide, by decide⟩
 
 /-- destroying before the switch away is rejected -/
 example : sys.run (doneTrace.take 13 ++ [.destroy 0 16]) = none := by decide
